@@ -33,9 +33,11 @@ def _ffactor(u, M):
     return {Units.SI: 1.0, Units.GPU: 3.35e-10}.get(u, 1 / (M * 3600.0))
 
 
-def _fcomp(M):
-    c = build.sym_component("1", sym=False)
-    c.molecular_weight = float(M)
+def _fcomp(M, name=None):
+    import attr
+    c = attr.evolve(build.sym_component("f", sym=False), molecular_weight=float(M))
+    if name is not None:
+        c = attr.evolve(c, name=name)
     return c
 
 
@@ -69,6 +71,15 @@ def concrete(inp):
                 bad.append("%s->%s without component returned %r" % (SHORT[a], SHORT[b], r.value))
             except (ValueError, KeyError):
                 pass
+    # the factor belongs to the component handed in, not to an earlier one of the same name (heavy water next to water, a corrected record)
+    for Mb in (M * 1.1115, M * 0.5):
+        first, second = _fcomp(M, "same name"), _fcomp(Mb, "same name")
+        for a, b in ((Units.kg_m2_h_kPa, Units.SI), (Units.SI, Units.kg_m2_h_kPa), (Units.GPU, Units.kg_m2_h_kPa)):
+            Permeance(v, a).convert(b, first)
+            got = Permeance(v, a).convert(b, second).value
+            want = v * _ffactor(a, Mb) / _ffactor(b, Mb)
+            if not close(got, want, 1e-9, 0):
+                bad.append("%s->%s of %r for a component of molar mass %r converted after a like-named one of %r: got %r, expected %r" % (SHORT[a], SHORT[b], v, Mb, M, got, want))
     for a in UNITS:
         for args in ((a, "bar"), ("bar", a)):
             try:
@@ -140,6 +151,36 @@ def conversions(job):
         for leaf in job.explore(lambda a=a: build.perm(build.S(1), a).convert(Units.SI, c), dom):
             if leaf.kind == "returned":
                 job.prove("C14/one_%s_in_SI" % SHORT[a], dom + leaf.conds(), lift(leaf.value.value) != val, R, inputs)
+
+
+def reuse(job):
+    """conversion is a function of (value, units, component handed in): two components that share a name but not a molar mass, converted
+    one after the other in one process, each get their own factor; so does the same pair in the opposite order"""
+    import attr
+    job.bound(conversions_in_sequence=3)
+    v = real("v")
+    ca = build.sym_component("1")
+    cb = build.sym_component("2")
+    cb.name = ca.name
+    Ma, Mb = ca.molecular_weight, cb.molecular_weight
+    dom = [v.t >= 0, Ma.t > 0, Mb.t > 0]
+    inputs = {"v": v.t, "M": Ma.t}
+    for a, b in ((Units.kg_m2_h_kPa, Units.SI), (Units.SI, Units.kg_m2_h_kPa), (Units.kg_m2_h_kPa, Units.GPU), (Units.GPU, Units.kg_m2_h_kPa)):
+        tag = "C14/reuse/%s->%s" % (SHORT[a], SHORT[b])
+
+        def run(a=a, b=b):
+            return build.perm(v, a).convert(b, ca), build.perm(v, a).convert(b, cb), build.perm(v, a).convert(b, ca)
+
+        for leaf in job.explore(run, dom):
+            if leaf.kind != "returned":
+                job.prove(tag + "/no_raise", dom + leaf.pc, z3.BoolVal(True), R, inputs)
+                continue
+            first, second, again = leaf.value
+            cs = dom + leaf.conds()
+            job.prove(tag + "/like_named_component_gets_its_own_factor", cs, lift(second.value) != v.t * factor(a, Mb) / factor(b, Mb), R, inputs,
+                      fallback=[{"v": 1.0, "M": 18.02, "k": 2.0}])
+            job.prove(tag + "/first_component_again", cs, z3.Or(lift(first.value) != v.t * factor(a, Ma) / factor(b, Ma), lift(again.value) != lift(first.value)), R, inputs,
+                      fallback=[{"v": 1.0, "M": 18.02, "k": 2.0}])
 
 
 def rejections(job):
@@ -255,7 +296,7 @@ def crosshair(job):
 
 
 def jobs(tier):
-    js = [("conversions", "conversions", {}), ("rejections", "rejections", {})]
+    js = [("conversions", "conversions", {}), ("rejections", "rejections", {}), ("reuse", "reuse", {})]
     if tier == "thorough":
         js.append(("crosshair", "crosshair", {}))
     return js
